@@ -78,7 +78,7 @@ def make_model(ctx, rng, force=False):
             # hopping / exchange backbone: an operator that moves between basis states, paired with its hermitian conjugate
             for _ in range(20):
                 o = s.get_op(n1).to_ndarray()
-                if np.linalg.norm(o - np.diag(np.diag(o))) > 1e-12:
+                if not (np.linalg.norm(o - np.diag(np.diag(o))) <= 1e-12):
                     break
                 n1 = C10.op_names(s, rng, 'fermionic' if rng.random() < 0.5 else 'bosonic') or n1
             n2 = s.get_hc_op_name(n1)
@@ -248,12 +248,12 @@ def case_dmrg(ctx, i):
             continue
         if eps < 1e-20:
             ctx.count('updates.energy_compared')
-            if abs(e_rep - e_dense_u) > 1e-8 * scale:
+            if not (abs(e_rep - e_dense_u) <= 1e-8 * scale):
                 ctx.violation(tag + ':update-energy-differs-from-<H>', 'sweep %d i0 %d: E0 = %r but <psi|H|psi> = %r after the update '
                               '(no truncation, no mixer): effective Hamiltonian / environment is not the projected H' %
                               (sw, i0, e_rep, e_dense_u), case)
                 break
-            if abs(nrm - 1) > 1e-8:
+            if not (abs(nrm - 1) <= 1e-8):
                 ctx.violation(tag + ':state-not-normalised-after-update', 'sweep %d i0 %d |psi| = %r' % (sw, i0, nrm), case)
                 break
         if prev is not None and diag != 'ED_all' and not has_chi_list and e_dense_u > prev + 1e-8 * scale and eps < 1e-20:
@@ -270,14 +270,14 @@ def case_dmrg(ctx, i):
     late = ':mixer-still-active-after-last-sweep' if mixer_on_at_end else ''
     nrm = np.linalg.norm(v)
     nt = np.max(np.abs(psi.norm_test()))
-    if abs(nrm - 1) > 1e-8 or nt > 1e-7:
+    if not (abs(nrm - 1) <= 1e-8) or nt > 1e-7:
         ctx.violation('DMRG%s:returned-state-not-normalised-or-not-canonical' % late, '%s: |psi| = %r, norm_test %r' % (tag, nrm, nt), case)
-        if abs(nrm - 1) > 1e-2:
+        if not (abs(nrm - 1) <= 1e-2):
             return
     v = v / nrm
     outside = np.ones(len(v), dtype=bool)
     outside[idx] = False
-    if np.linalg.norm(v[outside]) > 1e-8:
+    if not (np.linalg.norm(v[outside]) <= 1e-8):
         ctx.violation(tag + ':leaves-charge-sector', 'weight outside the sector %r' % np.linalg.norm(v[outside]), case)
         return
     e_dense = float(np.real(np.vdot(v, Hd @ v)))
@@ -285,7 +285,7 @@ def case_dmrg(ctx, i):
     # "up to the reported truncation": the engine reports the largest energy change caused by a truncation of the last sweep
     e_trunc = abs(float(np.max(eng.sweep_stats['max_E_trunc'][-1:]))) if len(eng.sweep_stats['max_E_trunc']) else 0.
     etol = 1e-7 * scale + 1.05 * e_trunc + (2e-2 * scale if mixer_on_at_end else 0.)
-    if abs(E - e_dense) > etol:
+    if not (abs(E - e_dense) <= etol):
         ctx.violation(tag + ':reported-energy-differs-from-<H>', 'E = %r, <psi|H|psi> = %r (chi_max %d)' % (E, e_dense, chi_max), case)
     if e_dense < lam[0] - 1e-8 * scale or (exact_regime and E < lam[0] - 1e-7 * scale):
         ctx.violation(tag + ':energy-below-exact-ground-state', 'E = %r, <H> = %r, E0(sector) = %r' % (E, e_dense, lam[0]), case)
@@ -329,11 +329,11 @@ def case_dmrg(ctx, i):
         hvc = hv.combine_legs(lbl, pipes=mat.legs[0])
         got = mat.to_ndarray() @ thc.to_ndarray()
         ctx.count('effH.checked')
-        if np.linalg.norm(got - hvc.to_ndarray()) > 1e-9 * max(1.0, np.linalg.norm(got)):
+        if not (np.linalg.norm(got - hvc.to_ndarray()) <= 1e-9 * max(1.0, np.linalg.norm(got))):
             ctx.violation('%s.to_matrix:differs-from-matvec' % EffH.__name__, '|to_matrix @ theta - matvec(theta)| = %g' %
                           np.linalg.norm(got - hvc.to_ndarray()), case)
         e_loc = float(np.real(np.vdot(thc.to_ndarray(), hvc.to_ndarray())))
-        if abs(e_loc - e_dense * nrm**2) > 1e-7 * scale and nt < 1e-9:
+        if not (abs(e_loc - e_dense * nrm**2) <= 1e-7 * scale) and nt < 1e-9:
             ctx.violation('%s:local-energy-differs-from-<H>' % EffH.__name__, '<theta|Heff|theta> = %r, <H> = %r' % (e_loc, e_dense), case)
     except Exception as e:
         tb = traceback.format_exc()
@@ -361,7 +361,7 @@ def case_dmrg(ctx, i):
                 ctx.count('ortho.warned_zero_energy')
                 raise _Skip()
             v1 = dense.finite_vector(psi1).reshape(-1)
-            if abs(np.vdot(v, v1)) > 1e-6:
+            if not (abs(np.vdot(v, v1)) <= 1e-6):
                 ctx.violation('orthogonal_to:result-not-orthogonal', '|<psi0|psi1>| = %r' % abs(np.vdot(v, v1)), case)
             e1 = float(np.real(np.vdot(v1, Hd @ v1)))
             if e1 < lam[1] - 1e-7 * scale:
@@ -421,14 +421,14 @@ def case_vumps(ctx, i):
         # Schmidt values at round-off level: the environments of VUMPS (inverse-free, but built from transfer-matrix eigenvectors
         # of an almost rank-deficient state) lose precision there -- numerical regime, only the state itself is judged
         ctx.count('vumps.ill_conditioned')
-    elif abs(E - e_mpo) > 1e-6:
+    elif not (abs(E - e_mpo) <= 1e-6):
         ctx.violation('%s:reported-energy-differs-from-H_MPO.expectation_value' % engine, 'E %r vs %r' % (E, e_mpo), case)
     if e_mpo < e0 - 1e-7:
         ctx.violation('%s:energy-density-below-exact' % engine, 'e = %r exact %r' % (e_mpo, e0), case)
     if e_mpo - e0 > {2: 2e-2, 3: 5e-3}.get(chi, 1e-4):
         ctx.violation('%s:does-not-converge' % engine, 'e - e_exact = %g (chi %d, g=%g)' % (e_mpo - e0, chi, g), case)
     nt = psi.norm_test()
-    if np.max(np.abs(nt)) > 1e-5:
+    if not (np.max(np.abs(nt)) <= 1e-5):
         ctx.violation('%s:not-canonical' % engine, 'norm_test %r' % np.max(np.abs(nt)), case)
     case['chi'] = chi
     ctx.sig(('vumps', engine, g, Lc, chi), nontrivial=True)
